@@ -16,6 +16,10 @@ CLAIMS = {
    technique="same SMT encoding of the real aligner as C01; z3 decides, over all adapters/reads within the bounds, that no admissible (error-free / in-tolerance) occurrence exists whenever match_to returns None, and the leftmost/rightmost/exact-removal clauses whenever it returns a match",
    text="Bounded model checking of completeness: on every path where the real match_to returns None the solver shows that none of the interval quadruples admitted by the placement rule is an error-free (all classes) or in-tolerance (classes named in the statement) occurrence; on match paths it shows the cut lies at/before the leftmost exact copy (3'), at/before its end (5'), at/after the rightmost copy's end (rightmost) and that exact anchored copies are removed exactly. An exception from match_to counts as a violation.",
    note=ALIGN_NOTE),
+ "C07": dict(engine="symx", design="3 C07",
+   technique="symbolic execution of kmer_heuristic.py (forking on equal k-mers), _kmer_finder.pyx (shift-and masks as 64-bit vectors, state-merged) and the aligner into SMT; z3 decides 'prefilter absent => no alignment' and every array bound for all adapters/reads within the bounds",
+   text="Bounded model checking of the prefilter against the aligner it guards: match_to of every adapter class (incl. the force-anywhere variants) is executed with kmers_present wrapped so that its symbolic verdict is recorded while the alignment always runs; on every path that returns a match the solver shows the recorded verdict is 'present'. All array reads of kmers_present/shift_and_multiple_is_present carry in-bounds obligations. Adapter (ACGT, or ACGTNRX with adapter wildcards) and read characters are symbolic; class, lengths, rate representative, switches and minimum overlap are enumerated.",
+   note=ALIGN_NOTE + " Read alphabet restricted to ACGTNacgtnRYX! (the kernel sees characters only through the match tables). State mutated by a kernel call that raises is not observed afterwards."),
  "C13": dict(engine="symx", design="3 C13",
    technique="symbolic execution of qualtrim.pyx (Cython parse tree -> merged SMT terms, z3) against a declarative BWA oracle; bounded in read length",
    text="Bounded model checking of the real kernels: for every read length up to the bound the solver decides, for all quality strings, cut-offs, bases and both quality bases, that quality_trim_index/nextseq_trim_index equal the declarative BWA definition; QualityTrimmer/NextseqQualityTrimmer slicing and trimmed_bases are executed from source on top. Not a proof: lengths beyond the bound are outside the claim.",
